@@ -115,7 +115,11 @@ def locator_item(entries, locator_type=VHDX_LOCATOR_TYPE, order=None):
 
 def build(states, slots, block_size=MB, sector=512, size=None, layer=1, seqs=(7, 6), regions=("meta", "bat"),
           meta_mb=2, bat_mb=3, base_mb=None, bitmaps=None, parent=None, disk_id=b"\x11" * 16, nslots=None, label="vhdx",
-          total_blocks=None, window_at=0, sb_slot_mb=None, name=None, leave_allocated=False, stale_offsets=False):
+          total_blocks=None, window_at=0, sb_slot_mb=None, name=None, leave_allocated=False, stale_offsets=False,
+          extra_items=None):
+    """extra_items: [(where, guid16, data, flags)] further metadata items, where = 'first' | 'last'; flags bit 0 IsUser, bit 1
+    IsVirtualDisk, bit 2 IsRequired.  An item is identified by (ItemId, IsUser); items a reader does not know are ignored
+    unless IsRequired is set."""
     """states: per block of the *window* one of NOT_PRESENT/UNDEFINED/ZERO_ST/UNMAPPED/DATA('D')/PARTIAL.
     slots:   per block the physical slot (for DATA / PARTIAL blocks).
     window_at/total_blocks: the window sits at block `window_at` of a disk of `total_blocks` blocks (others NOT_PRESENT).
@@ -155,6 +159,12 @@ def build(states, slots, block_size=MB, sector=512, size=None, layer=1, seqs=(7,
              (LOGICAL_SECTOR_SIZE, struct.pack("<I", sector), 6), (PHYSICAL_SECTOR_SIZE, struct.pack("<I", 4096), 6)]
     if has_parent:
         items.append((PARENT_LOCATOR, locator_item(parent), 4))
+    n_std = len(items)
+    for where, guid, data, flags in (extra_items or []):
+        if where == "first":
+            items.insert(0, (guid, data, flags))
+        else:
+            items.append((guid, data, flags))
     mt = struct.pack("<8s2sH20s", b"metadata", b"", len(items), b"")
     body = b""
     item_offsets = []
@@ -272,9 +282,10 @@ def build(states, slots, block_size=MB, sector=512, size=None, layer=1, seqs=(7,
         img.field(f"meta.entry{i}.offset", meta_mb * MB + 48 + 32 * i, 4, "<", "header")
         img.field(f"meta.entry{i}.length", meta_mb * MB + 52 + 32 * i, 4, "<", "header")
     if has_parent:
-        img.field("parent_locator.type", item_offsets[-1], 16, "<", "header")
-        img.field("parent_locator.key_value_count", item_offsets[-1] + 18, 2, "<", "header")
-    o = meta_mb * MB + KB64
+        li = [i for i, it in enumerate(items) if it[0] == PARENT_LOCATOR][0]
+        img.field("parent_locator.type", item_offsets[li], 16, "<", "header")
+        img.field("parent_locator.key_value_count", item_offsets[li] + 18, 2, "<", "header")
+    o = item_offsets[[i for i, it in enumerate(items) if it[0] == FILE_PARAMETERS and not it[2] & 1][0]]
     img.field("file_parameters.block_size", o, 4, "<", "header")
     img.field("file_parameters.flags", o + 4, 4, "<", "header")
     img.field("virtual_disk_size", o + 8, 8, "<", "header")
